@@ -152,6 +152,28 @@ func replayFinite(prop, which, path string) int {
 	return 0
 }
 
+// linearFinite checks one long all-Put history at capacity n (both ID modes) at the lengths around the wrap points.
+func linearFinite(c *sqrun.Ctx, which string, n int) int {
+	count := 0
+	for _, auto := range []bool{false, true} {
+		cfg := FiniteCfg{N: n, Auto: auto}
+		for _, l := range []int{n - 1, n, n + 1, 2*n - 1, 2 * n, 2*n + 1, 3*n + 2} {
+			h := make([]uint8, l)
+			var p int64
+			count++
+			if _, _, v := VisitFinite(cfg, h, which, &p); v != "" {
+				sig, msg := SplitViol(v)
+				c.Rep.Add(sig, msg, func() string {
+					return ev.WriteReplay(c.Prop, fmt.Sprintf("finite-n%d-auto%v-linear-%s", n, auto, sig), replayFile{Property: c.Prop, Kind: "finite", Config: cfg,
+						History: h, Ops: []string{fmt.Sprintf("%d x Put{a}", l)}, Msg: msg, Sig: sig, How: "./check " + c.Prop + " --replay <this file>"})
+				})
+				return count
+			}
+		}
+	}
+	return count
+}
+
 var C08 = finiteCheck("C08", "C08")
 
 func validConfigs(thorough bool) []ValidCfg {
@@ -270,6 +292,26 @@ var C18 = &sqrun.Check{ID: "C18", QuickBudget: 60, ThoroughBudget: 600,
 			cov[k] = cov[k].(int64) + f.Coverage[k].(int64)
 		}
 		cov["exhaustive"] = cov["exhaustive"].(bool) && f.Coverage["exhaustive"].(bool)
+		// larger capacities, one long history each (thresholds that only show beyond small N)
+		sweep := 0
+		for n := 6; n <= 40; n++ {
+			sweep += linearFinite(c, "C18", n)
+		}
+		for _, n := range []int{64, 100} {
+			sweep += linearFinite(c, "C18", n)
+		}
+		cov["linear_capacity_sweep_histories"] = sweep
+		cov["evaluations"] = cov["evaluations"].(int64) + int64(sweep)
+		// finalizer probes for what reflection cannot see
+		np, lv := runLeakProbes(c.Thorough)
+		cov["finalizer_probe_scripts"] = np
+		cov["evaluations"] = cov["evaluations"].(int64) + int64(np)
+		if lv != "" {
+			sig, msg := SplitViol(lv)
+			c.Rep.Add(sig, msg, func() string {
+				return ev.WriteReplay("C18", "finalizer-probe", map[string]any{"property": "C18", "violation": msg, "signature": sig, "how_to_replay": "./check C18 (the finalizer probe scripts are enumerated completely on every run)"})
+			})
+		}
 		cov["per_configuration_finite"] = f.Coverage["per_configuration"]
 		cov["samples"] = append(cov["samples"].([]any), f.Coverage["samples"].([]any)...)
 		cov["rule"] = "Same state spaces as C08 (FiniteReplayer) and C09 (ValidReplayer), with the retention invariant evaluated in every reachable state: the set of *Message reachable from the replayer (reflective walk, slices to capacity - what the garbage collector sees) holds at most N messages, all among the last N accepted (finite); no message with expiry <= now right after a collection ran (valid). " + cov["rule"].(string)
